@@ -8,6 +8,7 @@ import heapq
 import hashlib
 import queue as _real_queue
 import random
+import os
 import sys
 import threading as _real_threading
 from collections import deque
@@ -507,12 +508,26 @@ class SimLock:
     def __init__(self):
         self._locked = False
         self._waiters = []
+        self._owner = None      # the SimThread that holds it (None: a caller in scheduler context)
 
     def acquire(self, blocking=True, timeout=-1):
         sim = CURRENT
         while self._locked:
             if not blocking:
                 return False
+            if self._owner is sim.current:
+                # the same thread asks again for a lock that is not re-entrant (e.g. a frame handled inside the call that holds it): in a real
+                # process this thread now waits for itself for ever
+                fr = sys._getframe(1)
+                site = ''
+                repo = os.path.join(os.path.realpath(os.environ.get('VERIF_REPO', '/repo')), 'j1939') + os.sep
+                while fr is not None and not site:
+                    fn = os.path.realpath(fr.f_code.co_filename)
+                    if fn.startswith(repo):
+                        site = '%s:%s' % (os.path.basename(fn), fr.f_code.co_name)
+                    fr = fr.f_back
+                sim.log('self-deadlock', site)
+                raise LibraryHang(sim.current.name if sim.current is not None else 'calling thread', 'self-deadlock on a non-reentrant lock at ' + (site or '?'))
             sim.lock_waits += 1
             cur = sim.current
             if cur is None:
@@ -523,12 +538,14 @@ class SimLock:
                 self._waiters.append(cur)
                 sim._yield('lock')
         self._locked = True
+        self._owner = sim.current
         return True
 
     def release(self):
         if not self._locked:
             raise RuntimeError('release unlocked lock')
         self._locked = False
+        self._owner = None
         if self._waiters:
             th = self._waiters.pop(0)
             CURRENT.after(0, lambda: CURRENT._resume(th), 'lock-wake')
